@@ -69,7 +69,7 @@ func subst(t *Ty, args []*Ty) *Ty {
 // canon is the canonical text of a closed type (one text per type identity; spellings are ignored).
 func canon(t *Ty) string {
 	switch t.K {
-	case "basic", "named":
+	case "basic", "named", "plain":
 		return t.Name
 	case "param":
 		return "$" + strconv.Itoa(t.N)
@@ -137,6 +137,9 @@ func (m *Mode) ty(t *Ty) string {
 		}
 		return t.Name
 	case "named":
+		if m.rec != nil && findUnit(t.Name) != nil {
+			*m.rec = append(*m.rec, &Ty{K: "plain", Name: t.Name}) // reference to a plain late unit (model: FailModel)
+		}
 		return t.Name
 	case "param":
 		if m.args != nil {
@@ -495,12 +498,14 @@ func (m *Mode) valAs(v *Val, withType bool) string {
 // ---------------------------------------------------------------- Coq emission
 type coqEnv struct {
 	basics map[string]int // basic and named type names -> id
-	gens   map[string]int // generic name -> id
+	gens   map[string]int // generic name -> id (catalogue order), then the plain late units
 	lits   map[string]int // non-integer constant literals -> id
+	plain  map[string]bool // names of the plain late units
+	late   bool            // "late" session (FailModel): a plain unit is referenced as TyInst id []; otherwise it is an opaque name
 }
 
 func newCoqEnv() *coqEnv {
-	return &coqEnv{basics: map[string]int{}, gens: map[string]int{}, lits: map[string]int{}}
+	return &coqEnv{basics: map[string]int{}, gens: map[string]int{}, lits: map[string]int{}, plain: map[string]bool{}}
 }
 func (e *coqEnv) id(m map[string]int, k string) int {
 	if v, ok := m[k]; ok {
@@ -512,7 +517,12 @@ func (e *coqEnv) id(m map[string]int, k string) int {
 // pn: names of the parameters of the enclosing declaration (nil for closed terms)
 func (e *coqEnv) ty(t *Ty, pn []string) string {
 	switch t.K {
+	case "plain":
+		return fmt.Sprintf("(TyInst %d [])", e.id(e.gens, t.Name))
 	case "basic", "named":
+		if e.late && e.plain[t.Name] {
+			return fmt.Sprintf("(TyInst %d [])", e.id(e.gens, t.Name))
+		}
 		return fmt.Sprintf("(TyName %d%%N)", e.id(e.basics, t.Name))
 	case "param":
 		return fmt.Sprintf("(TyName %d%%N)", e.id(e.basics, pn[t.N]))
@@ -550,6 +560,9 @@ func (e *coqEnv) ty(t *Ty, pn []string) string {
 func (e *coqEnv) tyList(l []*Ty, pn []string) string {
 	var p []string
 	for _, x := range l {
+		if x.K == "plain" && !e.late {
+			continue // declared from the start: resolving an ordinary identifier does not touch the caches
+		}
 		p = append(p, e.ty(x, pn))
 	}
 	return vh.CoqList(p, "ty")
